@@ -884,3 +884,6 @@ impl Instr {
         }
     }
 }
+
+#[cfg(all(kani, abra_verif))]
+include!(concat!(env!("ABRA_VERIF_HARNESS_DIR"), "/optimize.rs"));
